@@ -154,7 +154,7 @@ impl Property for C17 {
     }
     fn cases(&self, tier: Tier) -> usize {
         match tier {
-            Tier::Quick => 100_000,
+            Tier::Quick => 500_000,
             Tier::Thorough => 3_000_000,
         }
     }
